@@ -349,7 +349,7 @@ def run(ctx):
     recs = pool.collect(ctx, [dict(gen="g4", count=120 * k, modes=["plain"], nexec=n), dict(gen="g4c", count=25 * k, modes=["plain"], nexec=n),
                               dict(gen="g4n", count=90 * k, modes=["plain"], nexec=n), dict(gen="g5conv2", count=20 * k, modes=["plain"], nexec=n),
                               dict(gen="g4p", count=40 * k, modes=["plain"], nexec=n),
-                              dict(gen="g4q", count=80 * k, modes=["plain"], nexec=n)])
+                              dict(gen="g4q", count=80 * k, modes=["plain"], nexec=n), dict(gen="g4s", count=30 * k, modes=["plain"], nexec=n)])
     c02.check_records(ctx, recs, classify=classify, need_reference=False)
     check_model(ctx, recs)
     witnesses(ctx)
